@@ -26,6 +26,7 @@ type BroadcastMessage struct {
 	Content     []byte   `json:"Content"`
 	ContentHash [16]byte `json:"ContentHash"`
 	ConnId      string   `json:"ConnId"`
+	Database    int      `json:"Database"` // Logical database of the connection the command or key came from.
 }
 
 // Invalidates Implements Broadcast interface
@@ -42,7 +43,8 @@ func (broadcastMessage *BroadcastMessage) Invalidates(other memberlist.Broadcast
 			broadcastMessage.ServerID == otherBroadcast.ServerID
 	case "MutateData":
 		return broadcastMessage.Action == otherBroadcast.Action &&
-			broadcastMessage.ContentHash == otherBroadcast.ContentHash
+			broadcastMessage.ContentHash == otherBroadcast.ContentHash &&
+			broadcastMessage.Database == otherBroadcast.Database
 	default:
 		return false
 	}
